@@ -13,6 +13,8 @@ copy of such an image:
   refuse    requests the tool must refuse: below the minimum, shrinking a stable_inodes
             filesystem, -b without extents, bigalloc without -f
   same      the current size, -b on a 64-bit / -s on a 32-bit filesystem (exit 0, no-ops)
+  chain     two runs in sequence (shrink/grow/convert, then back / double / -M / random); both
+            runs are judged in full, the second against the result of the first
 
 Oracles (independent reader vf/pyext4 + raw bytes; e2fsck's *status* is part of the
 property): after exit 0 - `e2fsck -fn` exits 0, pyext4's checker finds nothing, the
@@ -403,7 +405,7 @@ def candidates(info, rng):
     lo = max(mn, cur // 2)
     need_f = "bigalloc" in feats
     stable = "stable_inodes" in feats
-    out = {k: [] for k in ("min", "boundary", "random", "convert", "refuse", "same")}
+    out = {k: [] for k in ("min", "boundary", "random", "convert", "refuse", "same", "chain")}
 
     def case(kind, size=None, flags=(), note=""):
         fl = (["-f"] if need_f and kind != "refuse" else []) + list(flags)
@@ -447,6 +449,32 @@ def candidates(info, rng):
     else:
         out["refuse"].append(case("refuse", None, ["-b"], "to64-without-extents"))
     out["same"].append(case("same", str(cur), note="same-size"))
+    conv = ["-s"] if "64bit" in feats else (["-b"] if "extent" in feats else None)
+    for _ in range(12):
+        x = rng.random()
+        if x < .45 and not stable and mn < cur - 8:
+            t = rng.randint(mn, cur - 1)
+            c = case("chain", str(t), note="shrink")
+        elif x < .8 or conv is None:
+            t = rng.randint(cur + 1, hi)
+            c = case("chain", str(t), note="grow")
+        else:
+            t = cur
+            c = case("chain", None, conv, note="to32" if conv == ["-s"] else "to64")
+        y = rng.random()
+        if stable or y < .3:
+            th = {"size": str(max(t, cur) * 2), "flags": [], "note": "double"}
+        elif y < .6:
+            th = {"size": str(cur) if t != cur else str(cur + cur // 2), "flags": [], "note": "back"}
+        elif y < .8:
+            th = {"size": None, "flags": ["-M"], "note": "M"}
+        else:
+            th = {"size": str(rng.randint(max(mn, min(t, cur) // 2), hi)), "flags": [], "note": "rnd"}
+        if need_f:
+            th["flags"] = ["-f"] + th["flags"]
+        c["then"] = th
+        c["note"] += ">" + th["note"]
+        out["chain"].append(c)
     if not need_f and mn > fdb + 64:
         for _ in range(3):
             t = mn - rng.randint(1, max(1, min(mn // 4, mn - fdb - 32)))
@@ -459,8 +487,8 @@ def candidates(info, rng):
     return out
 
 
-QUOTA = [("boundary", .36), ("random", .24), ("min", .18), ("convert", .10), ("refuse", .08),
-         ("same", .04)]
+QUOTA = [("boundary", .32), ("random", .20), ("min", .18), ("convert", .10), ("chain", .08),
+         ("refuse", .08), ("same", .04)]
 TRACE_PREF = [("c08_nores_flex", "boundary", "grow"), ("ext4_flex4_g", "boundary", "shrink"),
               ("c08_holes_ext4", "boundary", "shrink"), ("c08_holes_ea", "random", "shrink"),
               ("c08_holes_ext3", "boundary", "shrink"),
@@ -581,224 +609,227 @@ def w_case(arg):
     except Exception as e:
         import traceback
         return {"id": case.get("id"), "case": case, "harness": "%s: %s" % (e, traceback.format_exc()[-700:]),
-                "viol": []}
+                "viol": [], "steps": []}
 
 
 def run_case(root, wdir, case, info, so):
+    """A case is one resize2fs run, or (kind 'chain') two runs in sequence, each judged in
+    full; the second starts from the result of the first."""
     b = build.Build(root, "plain")
     env = run.base_env(b)
     name = case["spec"]
-    base = os.path.join(wdir, "bases", name + ".img")
     cdir = os.path.join(wdir, "case%d" % case["id"])
     os.makedirs(cdir, exist_ok=True)
-    D = os.path.join(cdir, "d.img")
     res = {"id": case["id"], "case": case, "viol": [], "inconclusive": None, "harness": None,
-           "nontrivial": None, "outcome": None, "fclass": fclass(info["features"]), "files": {}}
-    keep = False
+           "fclass": fclass(info["features"]), "files": {}, "steps": []}
     try:
-        bs, cur = info["bs"], info["blocks"]
-        rb = req_blocks(case["size"], bs)
-        kind = case["kind"]
-        if "-M" in case["flags"] or kind == "min":
-            op = "min"
-        elif "-b" in case["flags"]:
-            op = "to64"
-        elif "-s" in case["flags"]:
-            op = "to32"
-        else:
-            op = "grow" if rb >= cur else "shrink"
-        res["op"] = op
-        want = max(cur, rb or 0, (info["min"] + info["bpg"]) if op == "min" else 0) * bs
         with open(os.path.join(wdir, "bases", name + ".pre.pkl"), "rb") as f:
             pre = pickle.load(f)
-        argv = [b.tool("resize2fs")] + case["flags"] + [D] + ([case["size"]] if case["size"] else [])
-        cmd = "resize2fs " + " ".join(case["flags"] + ["IMG(%s)" % name] + ([case["size"]] if case["size"] else []))
-        e = env
-        pre_copy = trace = None
-        if case["traced"]:
-            pre_copy = os.path.join(cdir, "pre.img")
-            trace = os.path.join(cdir, "trace.bin")
-            e = dict(env)
-            e.update(iotrace.env_for(so, trace, [D]))
-        for attempt in (0, 1):
-            run.copy_sparse(base, D)
-            if case.get("extend") != "tool" and os.path.getsize(D) < want:
-                os.truncate(D, want)
-            if trace:
-                run.copy_sparse(D, pre_copy)
-                if os.path.exists(trace):
-                    os.unlink(trace)
-            r = run.run(argv, env=e, timeout=300 * (attempt + 1))
-            if not r.timed_out:
+        st = {"base": os.path.join(wdir, "bases", name + ".img"), "pre": pre, "min": info["min"]}
+        steps = [{"size": case["size"], "flags": case["flags"], "kind": case["kind"]}]
+        if case.get("then"):
+            steps.append(dict(case["then"], kind="chain2"))
+        for si, step in enumerate(steps):
+            D = os.path.join(cdir, "d%d.img" % si)
+            sr = resize_once(b, env, so, cdir, D, name, step, st, case, si)
+            res["steps"].append(sr)
+            for k in ("inconclusive", "harness"):
+                if sr.get(k):
+                    res[k] = sr[k]
+            res["viol"] += sr.pop("viol")
+            res["files"].update(sr.pop("files"))
+            nxt = sr.pop("next", None)
+            if res["inconclusive"] or res["harness"] or res["viol"] or nxt is None:
                 break
-        if r.timed_out:
-            res["inconclusive"] = "resize2fs timed out twice: %s" % cmd
-            return res
-        out = r.text + r.etext
-        res["rc"], res["sig"] = r.rc, r.sig
-        res["msg"] = " | ".join(l for l in out.replace(D, "IMG").splitlines() if l.strip()
-                                and not l.startswith("resize2fs 1."))[-300:]
-        started = ("Resizing the filesystem on" in out) or ("Converting the filesystem" in out)
-        m_now = re.search(r"is now (\d+) \((\d+)k\) blocks long", out)
-        fc = res["fclass"]
-        replay = {"case": case}
-
-        def viol(key, what):
-            res["viol"].append((key + " " + fc, what))
-
-        recs = None
-        if case["traced"]:
-            recs = iotrace.parse(trace)
-            why = []
-            if not iotrace.selfcheck(pre_copy, recs, D, why=why):
-                res["harness"] = "iotrace self-check failed (trace incomplete): %s; %s" % (
-                    why, cmd)
-                return res
-            res["trace"] = {"records": len(recs)}
-
-        if r.sig:
-            viol("C08 %s killed-by-signal %d" % (op, r.sig), res["msg"])
-            res["outcome"] = "signal"
-            keep = True
-            return res
-
-        if r.rc != 0:
-            same = fs_bytes_identical(base, D, cur * bs)
-            if recs is not None:
-                res["trace"]["writes"] = sum(1 for x in recs if iotrace.is_modifying(x))
-            if not started:
-                res["outcome"] = "refused"
-                res["refusal_expected"] = kind == "refuse"
-                if not same:
-                    extra = ""
-                    try:
-                        geo2, bk2, dig2, _ = observe(D, False)
-                        extra = "tree digest %s; " % ("unchanged" if dig2 == pre["digest"] else "CHANGED")
-                    except Exception as ex:
-                        extra = "unreadable now (%s); " % ex
-                    viol("C08 refused-but-modified", "%s exit %s without announcing the resize but the "
-                         "filesystem bytes changed; %s%s" % (cmd, r.rc, extra, res["msg"]))
-                    keep = True
-                return res
-            res["outcome"] = "aborted"
-            if not same:
-                with open(D, "rb") as f:
-                    f.seek(1024 + 58)
-                    st = struct.unpack("<H", f.read(2))[0]
-                res["abort_state"] = st
-                if not st & EXT2_ERROR_FS:
-                    viol("C08 %s aborted-without-error-flag" % op, "%s failed (exit %s) after modifying the "
-                         "filesystem and s_state=%#x lacks EXT2_ERROR_FS; %s" % (
-                             cmd, r.rc, st, res["msg"]))
-                    keep = True
-            return res
-
-        # ---- exit 0
-        res["outcome"] = "ok" if m_now else "noop"
-        rf = run.run([b.tool("e2fsck"), "-fn", D], env=env, timeout=300)
-        if rf.timed_out:
-            res["inconclusive"] = "e2fsck -fn timed out"
-            return res
-        if rf.rc != 0:
-            viol("C08 %s e2fsck-fn %s" % (op, first_problem(rf.text + rf.etext, D)),
-                 "%s exit 0, then e2fsck -fn exit %s: %s" % (cmd, rf.rc,
-                                                           (rf.text + rf.etext).replace(D, "IMG")[-500:]))
-            keep = True
-        pyk, pyd = fsckpair.pycheck(D)
-        if "ORACLE-CRASH" in pyk:
-            res["harness"] = "pyext4 crashed on the result of %s: %s" % (cmd, pyd)
-            keep = True
-            return res
-        if pyk:
-            viol("C08 %s pyext4 %s" % (op, ",".join(pyk[:3])),
-                 "%s exit 0 (e2fsck -fn exit %s) but the independent checker finds %s" % (
-                     cmd, rf.rc, pyd))
-            keep = True
-        try:
-            geo2, bk2, dig2, ph2 = observe(D)
-        except Exception as ex:
-            viol("C08 %s tree-differs unreadable" % op, "independent reader fails on the result of %s: %r"
-                 % (cmd, ex))
-            keep = True
-            return res
-        res["post"] = {"blocks": geo2["blocks"], "groups": geo2["groups"]}
-        # size
-        if m_now:
-            rep_n = int(m_now.group(1))
-            res["reported"] = rep_n
-            bad = None
-            if geo2["blocks"] != rep_n:
-                bad = "superblock says %d blocks, resize2fs reported %d" % (geo2["blocks"], rep_n)
-            elif op in ("to64", "to32") and rep_n != cur:
-                bad = "conversion changed the size %d -> %d" % (cur, rep_n)
-            elif rb is not None and op != "min" and not (rep_n <= rb and rb - rep_n < info["bpg"] + info["ratio"]):
-                bad = "requested %d blocks, reported %d (blocks_per_group %d)" % (rb, rep_n, info["bpg"])
-            elif rb is not None and op == "min" and not (rep_n <= rb and rb - rep_n < info["bpg"] + info["ratio"]):
-                bad = "requested %d blocks, reported %d" % (rb, rep_n)
-            if bad:
-                viol("C08 %s size-mismatch" % op, "%s: %s" % (cmd, bad))
-                keep = True
-            res["exact_request"] = rb is not None and rep_n == rb
-        else:
-            if geo2["blocks"] != cur:
-                viol("C08 %s size-mismatch" % op, "%s reported nothing to do but the size went %d -> %d" % (
-                    cmd, cur, geo2["blocks"]))
-                keep = True
-        if os.path.getsize(D) < geo2["blocks"] * bs:
-            viol("C08 %s image-file-shorter-than-filesystem" % op, "%s: file %d bytes < %d blocks of %d" % (
-                cmd, os.path.getsize(D), geo2["blocks"], bs))
-            keep = True
-        # tree
-        if dig2 != pre["digest"]:
-            attrs = digest_diff(pre["digest"], dig2)
-            viol("C08 %s tree-differs %s" % (op, attrs[0] if attrs else "?"),
-                 "%s: attributes %s; %s" % (cmd, attrs,
-                                            T.diff_digests(pre["digest"], dig2)[:4]))
-            keep = True
-        # what the run did (for evidence / non-triviality), from the independent reader
-        ph1 = pre["phys"]
-        moved = sum(1 for p, v in ph1.items() if p in ph2 and ph2[p][1] != v[1])
-        renum = sum(1 for p, v in ph1.items() if p in ph2 and ph2[p][0] != v[0])
-        it1, it2 = pre["geo"]["itables"], geo2["itables"]
-        itm = sum(1 for g in range(min(len(it1), len(it2))) if it1[g] != it2[g])
-        gdelta = geo2["groups"] - pre["geo"]["groups"]
-        res["did"] = {"moved_files": moved, "renumbered": renum, "itables_moved": itm, "gdelta": gdelta,
-                      "to64": ("64bit" in geo2["features"]) != ("64bit" in pre["geo"]["features"])}
-        if moved or itm or gdelta or res["did"]["to64"]:
-            res["nontrivial"] = "%s|%s|g%s|mv%d|it%d|rn%d" % (
-                name, op, "+" if gdelta > 0 else "-" if gdelta < 0 else "0", bool(moved), bool(itm),
-                bool(renum))
-        # crash-point clause
-        if recs is not None:
-            fcr = flag_check(pre_copy, recs, bs, pre["backup"] | bk2)
-            tr = res["trace"]
-            tr.update({k: fcr[k] for k in ("writes", "syncs", "prefixes", "strong", "first_flag",
-                                           "first_mod", "final_sb_rewrite_at", "flagged_prefixes",
-                                           "max_dirty_blocks")})
-            v = fcr["violation"]
-            if v:
-                viol("C08 flag-missing-at-prefix %s" % v["phase"],
-                     "%s: after trace record %d block %d differs from the pre-image while the on-disk "
-                     "primary superblock has s_state=%#x (no EXT2_ERROR_FS); final superblock rewrite "
-                     "starts at record %d\n%s" % (cmd, v["record"], v["block"], v["s_state"],
-                                                  fcr["final_sb_rewrite_at"], excerpt(recs, v["record"])))
-                res["files"]["trace-excerpt.txt"] = excerpt(recs, v["record"], 30).encode()
-                keep = True
-            elif fcr["strong"] not in (None, "ok"):
-                at = fcr["first_mod"]
-                res["viol"].append((
-                    "C08 flag-not-durable-before-first-modification " + fc,
-                    "%s: %s (flag write at record %s, first real modification at record %s, block %s)\n%s"
-                    % (cmd, fcr["strong"], fcr["first_flag"], at,
-                       fcr.get("first_mod_block"), excerpt(recs, at)))
-                )
-                res["files"]["trace-excerpt.txt"] = excerpt(recs, at, 30).encode()
+            st = nxt
         return res
     finally:
-        if not keep:
-            shutil.rmtree(cdir, ignore_errors=True)
-        else:
-            res["keep_dir"] = cdir
+        shutil.rmtree(cdir, ignore_errors=True)
+
+
+def resize_once(b, env, so, cdir, D, name, step, st, case, si):
+    pre = st["pre"]
+    g1 = pre["geo"]
+    bs, cur, bpg, ratio = g1["bs"], g1["blocks"], g1["bpg"], g1["ratio"]
+    base = st["base"]
+    fc = fclass(g1["features"])
+    rb = req_blocks(step["size"], bs)
+    kind = step["kind"]
+    if "-M" in step["flags"] or kind == "min":
+        op = "min"
+    elif "-b" in step["flags"]:
+        op = "to64"
+    elif "-s" in step["flags"]:
+        op = "to32"
+    else:
+        op = "grow" if rb >= cur else "shrink"
+    sr = {"op": op, "kind": kind, "viol": [], "files": {}, "outcome": None, "nontrivial": None,
+          "step": si, "fclass": fc}
+    traced = case["traced"]
+    want = max(cur, rb or 0, (st["min"] + bpg) if (op == "min" and st["min"]) else 0) * bs
+    argv = [b.tool("resize2fs")] + step["flags"] + [D] + ([step["size"]] if step["size"] else [])
+    cmd = "%sresize2fs %s" % ("(step 2 of a chain, after %s) " % case["note"] if si else "",
+                              " ".join(step["flags"] + ["IMG(%s)" % name] + ([step["size"]] if step["size"] else [])))
+    e = env
+    pre_copy = trace = None
+    if traced:
+        pre_copy = os.path.join(cdir, "pre%d.img" % si)
+        trace = os.path.join(cdir, "trace%d.bin" % si)
+        e = dict(env)
+        e.update(iotrace.env_for(so, trace, [D]))
+    for attempt in (0, 1):
+        run.copy_sparse(base, D)
+        if case.get("extend") != "tool" and os.path.getsize(D) < want:
+            os.truncate(D, want)
+        if trace:
+            run.copy_sparse(D, pre_copy)
+            if os.path.exists(trace):
+                os.unlink(trace)
+        r = run.run(argv, env=e, timeout=300 * (attempt + 1))
+        if not r.timed_out:
+            break
+    if r.timed_out:
+        sr["inconclusive"] = "resize2fs timed out twice: %s" % cmd
+        return sr
+    out = r.text + r.etext
+    sr["rc"], sr["sig"] = r.rc, r.sig
+    sr["msg"] = " | ".join(l for l in out.replace(D, "IMG").splitlines() if l.strip()
+                           and not l.startswith("resize2fs 1."))[-300:]
+    started = ("Resizing the filesystem on" in out) or ("Converting the filesystem" in out)
+    m_now = re.search(r"is now (\d+) \((\d+)k\) blocks long", out)
+
+    def viol(key, what):
+        sr["viol"].append((key + " " + fc, what))
+
+    recs = None
+    if traced:
+        recs = iotrace.parse(trace)
+        why = []
+        if not iotrace.selfcheck(pre_copy, recs, D, why=why):
+            sr["harness"] = "iotrace self-check failed (trace incomplete): %s; %s" % (why, cmd)
+            return sr
+        sr["trace"] = {"records": len(recs)}
+
+    if r.sig:
+        viol("C08 %s killed-by-signal %d" % (op, r.sig), "%s: %s" % (cmd, sr["msg"]))
+        sr["outcome"] = "signal"
+        return sr
+
+    if r.rc != 0:
+        same = fs_bytes_identical(base, D, cur * bs)
+        if recs is not None:
+            sr["trace"]["writes"] = sum(1 for x in recs if iotrace.is_modifying(x))
+        if not started:
+            sr["outcome"] = "refused"
+            sr["refusal_expected"] = kind == "refuse"
+            if not same:
+                try:
+                    dig2 = observe(D, False)[2]
+                    extra = "tree digest %s; " % ("unchanged" if dig2 == pre["digest"] else "CHANGED")
+                except Exception as ex:
+                    extra = "unreadable now (%s); " % ex
+                viol("C08 refused-but-modified", "%s exit %s without announcing the resize but the "
+                     "filesystem bytes changed; %s%s" % (cmd, r.rc, extra, sr["msg"]))
+            return sr
+        sr["outcome"] = "aborted"
+        if not same:
+            with open(D, "rb") as f:
+                f.seek(1024 + 58)
+                state = struct.unpack("<H", f.read(2))[0]
+            sr["abort_state"] = state
+            if not state & EXT2_ERROR_FS:
+                viol("C08 %s aborted-without-error-flag" % op, "%s failed (exit %s) after modifying the "
+                     "filesystem and s_state=%#x lacks EXT2_ERROR_FS; %s" % (cmd, r.rc, state, sr["msg"]))
+        return sr
+
+    # ---- exit 0
+    sr["outcome"] = "ok" if m_now else "noop"
+    rf = run.run([b.tool("e2fsck"), "-fn", D], env=env, timeout=300)
+    if rf.timed_out:
+        sr["inconclusive"] = "e2fsck -fn timed out"
+        return sr
+    if rf.rc != 0:
+        viol("C08 %s e2fsck-fn %s" % (op, first_problem(rf.text + rf.etext, D)),
+             "%s exit 0, then e2fsck -fn exit %s: %s" % (cmd, rf.rc,
+                                                       (rf.text + rf.etext).replace(D, "IMG")[-500:]))
+    pyk, pyd = fsckpair.pycheck(D)
+    if "ORACLE-CRASH" in pyk:
+        sr["harness"] = "pyext4 crashed on the result of %s: %s" % (cmd, pyd)
+        return sr
+    if pyk:
+        viol("C08 %s pyext4 %s" % (op, ",".join(pyk[:3])),
+             "%s exit 0 (e2fsck -fn exit %s) but the independent checker finds %s" % (cmd, rf.rc, pyd))
+    try:
+        geo2, bk2, dig2, ph2 = observe(D)
+    except Exception as ex:
+        viol("C08 %s tree-differs unreadable" % op, "independent reader fails on the result of %s: %r"
+             % (cmd, ex))
+        return sr
+    sr["post"] = {"blocks": geo2["blocks"], "groups": geo2["groups"]}
+    # size
+    if m_now:
+        rep_n = int(m_now.group(1))
+        sr["reported"] = rep_n
+        bad = None
+        if geo2["blocks"] != rep_n:
+            bad = "superblock says %d blocks, resize2fs reported %d" % (geo2["blocks"], rep_n)
+        elif op in ("to64", "to32") and rep_n != cur:
+            bad = "conversion changed the size %d -> %d" % (cur, rep_n)
+        elif rb is not None and not (rep_n <= rb and rb - rep_n < bpg + ratio):
+            bad = "requested %d blocks, reported %d (blocks_per_group %d)" % (rb, rep_n, bpg)
+        if bad:
+            viol("C08 %s size-mismatch" % op, "%s: %s" % (cmd, bad))
+        sr["exact_request"] = rb is not None and rep_n == rb
+        sr["trimmed"] = rb is not None and rep_n != rb
+    elif geo2["blocks"] != cur:
+        viol("C08 %s size-mismatch" % op, "%s reported nothing to do but the size went %d -> %d" % (
+            cmd, cur, geo2["blocks"]))
+    if os.path.getsize(D) < geo2["blocks"] * bs:
+        viol("C08 %s image-file-shorter-than-filesystem" % op, "%s: file %d bytes < %d blocks of %d" % (
+            cmd, os.path.getsize(D), geo2["blocks"], bs))
+    # tree
+    if dig2 != pre["digest"]:
+        attrs = digest_diff(pre["digest"], dig2)
+        viol("C08 %s tree-differs %s" % (op, attrs[0] if attrs else "?"),
+             "%s: attributes %s; %s" % (cmd, attrs, T.diff_digests(pre["digest"], dig2)[:4]))
+    # what the run did (for evidence / non-triviality), from the independent reader
+    ph1 = pre["phys"]
+    moved = sum(1 for p, v in ph1.items() if p in ph2 and ph2[p][1] != v[1])
+    renum = sum(1 for p, v in ph1.items() if p in ph2 and ph2[p][0] != v[0])
+    it1, it2 = g1["itables"], geo2["itables"]
+    itm = sum(1 for g in range(min(len(it1), len(it2))) if it1[g] != it2[g])
+    gdelta = geo2["groups"] - g1["groups"]
+    sr["did"] = {"moved_files": moved, "renumbered": renum, "itables_moved": itm, "gdelta": gdelta,
+                 "to64": ("64bit" in geo2["features"]) != ("64bit" in g1["features"])}
+    if moved or itm or gdelta or sr["did"]["to64"]:
+        sr["nontrivial"] = "%s|%s%s|g%s|mv%d|it%d|rn%d" % (
+            name, "2:" if si else "", op, "+" if gdelta > 0 else "-" if gdelta < 0 else "0", bool(moved),
+            bool(itm), bool(renum))
+    # crash-point clause
+    if recs is not None:
+        fcr = flag_check(pre_copy, recs, bs, pre["backup"] | bk2)
+        sr["trace"].update({k: fcr[k] for k in ("writes", "syncs", "prefixes", "strong", "first_flag",
+                                                "first_mod", "final_sb_rewrite_at", "flagged_prefixes",
+                                                "max_dirty_blocks")})
+        v = fcr["violation"]
+        if v:
+            viol("C08 flag-missing-at-prefix %s" % v["phase"],
+                 "%s: after trace record %d block %d differs from the pre-image while the on-disk "
+                 "primary superblock has s_state=%#x (no EXT2_ERROR_FS); final superblock rewrite "
+                 "starts at record %d\n%s" % (cmd, v["record"], v["block"], v["s_state"],
+                                              fcr["final_sb_rewrite_at"], excerpt(recs, v["record"])))
+            sr["files"]["trace-excerpt-step%d.txt" % si] = excerpt(recs, v["record"], 30).encode()
+        elif fcr["strong"] not in (None, "ok"):
+            at = fcr["first_mod"]
+            viol("C08 flag-not-durable-before-first-modification",
+                 "%s: %s (flag write at record %s, first real modification at record %s, block %s)\n%s"
+                 % (cmd, fcr["strong"], fcr["first_flag"], at, fcr.get("first_mod_block"),
+                    excerpt(recs, at)))
+            sr["files"]["trace-excerpt-step%d.txt" % si] = excerpt(recs, at, 30).encode()
+    # state for a following step: this result is the next pre-image
+    sr["next"] = {"base": D, "min": None,
+                  "pre": {"geo": geo2, "backup": bk2, "digest": pre["digest"], "phys": ph2}}
+    return sr
 
 
 # ------------------------------------------------------------------ main
@@ -806,12 +837,13 @@ def run_case(root, wdir, case, info, so):
 def main(tier, seed, replay=None, scale=1.0):
     rep = report.Report(
         "C08", tier, seed, "exploration",
-        rule="one case = one resize2fs run on a copy of a tree-built, freshly checked image; non-trivial "
-             "= exit 0 and, judged by the independent reader, the run changed the group count, moved an "
-             "inode table, changed the physical placement of at least one file's blocks or converted "
-             "32<->64 bit; distinct by (spec, operation, sign of the group-count change, files moved?, "
-             "inode tables moved?, inodes renumbered?).  Traced runs additionally have every write "
-             "prefix examined for the EXT2_ERROR_FS rule")
+        rule="one case = one resize2fs run (kind 'chain': two runs in sequence, both judged) on a copy of "
+             "a tree-built, freshly checked image; a run is non-trivial when it exits 0 and, judged by "
+             "the independent reader, changed the group count, moved an inode table, changed the "
+             "physical placement of at least one file's blocks or converted 32<->64 bit; distinct by "
+             "(spec, first/second step, operation, sign of the group-count change, files moved?, inode "
+             "tables moved?, inodes renumbered?).  Traced runs additionally have every write prefix "
+             "examined for the EXT2_ERROR_FS rule")
     b = build.get_build("plain")
     total, ntraced = BUDGET[tier]
     total = max(12, int(total * scale))
@@ -864,63 +896,66 @@ def main(tier, seed, replay=None, scale=1.0):
                 rep.note_inconclusive(r["inconclusive"])
                 rep.case(None)
                 continue
-            rep.case(r.get("nontrivial"))
-            op = r.get("op", "?")
             rep.count("spec_" + c["spec"])
             rep.count("kind_" + c["kind"])
-            rep.count("op_" + op)
-            rep.count("outcome_" + str(r["outcome"]))
             rep.add("feature_classes", r["fclass"])
-            if r["outcome"] == "refused":
-                rep.count("refused")
-                rep.add("refusal_reasons", re.sub(r"\d+", "N", re.sub(r"\S*/resize2fs: ", "", r.get("msg", "")))[-90:])
-                if not r.get("refusal_expected"):
-                    rep.count("refused_unplanned")
-            if r["outcome"] == "aborted":
-                rep.add("aborted_runs", "%s %s: %s" % (c["spec"], c["note"], r.get("msg", "")[-120:]))
-            d = r.get("did")
-            if d:
-                rep.add("group_count_deltas", d["gdelta"])
-                if d["moved_files"]:
-                    rep.count("runs_that_moved_file_blocks")
-                    rep.count("files_with_moved_blocks", d["moved_files"])
-                if d["itables_moved"]:
-                    rep.count("runs_that_moved_inode_tables")
-                if d["renumbered"]:
-                    rep.count("runs_that_renumbered_inodes")
-                    rep.count("inodes_renumbered", d["renumbered"])
-                if d["to64"]:
-                    rep.count("runs_that_changed_64bit")
-                if r.get("exact_request"):
-                    rep.count("size_exactly_as_requested")
-                elif r.get("reported") is not None and c["size"]:
-                    rep.count("size_trimmed_by_tool")
             if c.get("extend") == "tool":
                 rep.count("grow_with_tool_extending_the_file")
-            t = r.get("trace")
-            if t:
-                rep.count("traced_runs")
-                if "prefixes" in t:
-                    rep.count("traced_runs_flag_rule_evaluated")
-                    rep.count("trace_prefixes_examined", t["prefixes"])
-                    rep.count("trace_prefixes_with_real_modification_and_flag", t["flagged_prefixes"])
-                    wr.append(t["writes"])
-                    px.append(t["prefixes"])
-                    rep.add("strong_form", str(t["strong"]))
-                    if len(rep.samples) < 5 and t["prefixes"] > 20:
-                        rep.sample({"spec": c["spec"], "args": c["flags"] + [c["size"]], "op": op,
-                                    "did": d, "trace": t, "reported": r.get("reported")})
+            for sr in r["steps"]:
+                rep.case(sr.get("nontrivial"))
+                op = sr["op"]
+                rep.count("resize2fs_runs")
+                rep.count("op_" + op)
+                rep.count("outcome_" + str(sr["outcome"]))
+                if sr["step"]:
+                    rep.count("second_steps_of_chains")
+                if sr["outcome"] == "refused":
+                    rep.count("refused")
+                    rep.add("refusal_reasons", re.sub(r"\d+", "N", re.sub(r"\S*/resize2fs: ", "",
+                                                                         sr.get("msg", "")))[-90:])
+                    if not sr.get("refusal_expected"):
+                        rep.count("refused_unplanned")
+                if sr["outcome"] == "aborted":
+                    rep.add("aborted_runs", "%s %s: %s" % (c["spec"], c["note"], sr.get("msg", "")[-120:]))
+                d = sr.get("did")
+                if d:
+                    rep.add("group_count_deltas", d["gdelta"])
+                    if d["moved_files"]:
+                        rep.count("runs_that_moved_file_blocks")
+                        rep.count("files_with_moved_blocks", d["moved_files"])
+                    if d["itables_moved"]:
+                        rep.count("runs_that_moved_inode_tables")
+                    if d["renumbered"]:
+                        rep.count("runs_that_renumbered_inodes")
+                        rep.count("inodes_renumbered", d["renumbered"])
+                    if d["to64"]:
+                        rep.count("runs_that_changed_64bit")
+                    if sr.get("exact_request"):
+                        rep.count("size_exactly_as_requested")
+                    elif sr.get("trimmed"):
+                        rep.count("size_trimmed_by_tool")
+                t = sr.get("trace")
+                if t:
+                    rep.count("traced_runs")
+                    if "prefixes" in t:
+                        rep.count("traced_runs_flag_rule_evaluated")
+                        rep.count("trace_prefixes_examined", t["prefixes"])
+                        rep.count("trace_prefixes_with_real_modification_and_flag", t["flagged_prefixes"])
+                        wr.append(t["writes"])
+                        px.append(t["prefixes"])
+                        rep.add("strong_form", str(t["strong"]))
+                        if len(rep.samples) < 5 and t["prefixes"] > 20 and (d or {}).get("moved_files"):
+                            rep.sample({"spec": c["spec"], "args": c["flags"] + [c["size"]], "op": op,
+                                        "did": d, "trace": t, "reported": sr.get("reported")})
             for key, what in r["viol"]:
-                files = dict(r.get("files") or {})
-                rep.violation(key, what, replay={"case": c}, files=files)
-            if r.get("keep_dir"):
-                shutil.rmtree(r["keep_dir"], ignore_errors=True)
+                rep.violation(key, what, replay={"case": c}, files=dict(r.get("files") or {}))
         if wr:
             rep.extra["writes_per_trace"] = {"min": min(wr), "max": max(wr), "sum": sum(wr)}
             rep.extra["prefixes_per_trace"] = {"min": min(px), "max": max(px)}
         rep.extra["images"] = {n: {"blocks": i["blocks"], "bs": i["bs"], "groups": i["groups"],
                                    "min": i["min"], "used_frac": i["used_frac"], "objects": i["objects"],
-                                   "class": fclass(i["features"])} for n, i in sorted(infos.items())}
+                                   "class": fclass(i["features"]), "punched": i.get("punched")}
+                               for n, i in sorted(infos.items())}
     rep.assumptions = [
         "deterministic environment of run.base_env (fixed fake time, RESIZE2FS_FORCE_LAZY_ITABLE_INIT=1)",
         "backup superblocks / backup descriptor blocks (pyext4 placement, pre- and post-geometry) are "
@@ -930,5 +965,7 @@ def main(tier, seed, replay=None, scale=1.0):
         "1024..2047; prefixes inside that run are not judged",
         "a run that fails after announcing the resize is 'aborted' (must leave EXT2_ERROR_FS), not a refusal",
         "offline resize only; image files on tmpfs; sizes up to 4x of 4-64 MiB images",
+        "base images whose mke2fs/debugfs output is not consistent are settled once with e2fsck -fy "
+        "(listed in settled_images); all bases get a final e2fsck -fy (freshly checked)",
     ]
-    return rep.finish()
+    return rep.finish(min_nontrivial=0 if replay else 2)
